@@ -143,6 +143,7 @@ func Load(repo string, goarch string, overlay map[string][]byte) *Prog {
 		p.FuncByID[funcID(fn)] = fn
 	}
 	resolveFieldAliases(p)
+	resolveEntries(p)
 	return p
 }
 
